@@ -309,6 +309,9 @@ const c12ParallelCases = 12
 
 func runC12(w *core.WorkerCtx, idx int) *core.CaseResult {
 	cs := c12Cases(w.Tier)
+	if idx >= len(cs)+c12ParallelCases {
+		return runC12Real(w, idx-len(cs)-c12ParallelCases)
+	}
 	if idx >= len(cs) {
 		return runC12Parallel(w, idx-len(cs))
 	}
@@ -436,9 +439,10 @@ func init() {
 		Rule: "case = payload shape {empty, one line, no trailing newline, only newlines, comments/blanks, lines the statistics parser rejects (incl. binary), CRLF/unicode, generated, one line of 256 KiB-1, a newline exactly on the 64 KiB block boundary, 1 MiB, 8 MiB} x {identity, gzip} x Prometheus side {instrumented ResponseWriter with short writes of 1/7/4096 bytes, real net/http hop} x {assigned, not assigned to this shard} x chunking {every 2-way split point of the wire bytes + byte-by-byte, seed-determined random read sizes 1 B..128 KiB} x three content types; " +
 			"plus 12 cases in which 8 targets with different payloads/encodings are scraped concurrently through one proxy over a real HTTP hop, three rounds each, plus four rendezvous pairs of gzip scrapes whose harness-owned ResponseWriters hold both scrapes between the request to the target and the streaming of the body; oracle = byte equality of what Prometheus received with the target's body after decompression, status 200, same Content-Type; runs from the -race binary (the parser calls back concurrently); " +
 			"plus, in each of those 12 cases, two scrapes during which the administrative stop is lifted / set while the real request is held in the harness transport: a complete 200 response must carry the target's bytes; " +
+			"plus 3/12 cases on the REAL sidecar process (proxy started by Proxy.Run) with a loopback target whose header, tail or parts of a 200-300 KB body arrive over 11-31 s (scrape_timeout 120 s); " +
 			"non-trivial = every case; distinct = (shape, encoding, mode, assigned, short-write size, chunking)",
 		Assumptions:   []string{"targets are in-memory http.RoundTrippers installed in JobInfo.Cli; gzip bodies are produced with compress/gzip at default level"},
-		NumCases:      func(tier string) int { return len(c12Cases(tier)) + c12ParallelCases },
+		NumCases:      func(tier string) int { return len(c12Cases(tier)) + c12ParallelCases + c12RealCases(tier) },
 		Run:           runC12,
 		MinNontrivial: 100,
 		CaseTimeout:   300e9,
